@@ -60,7 +60,7 @@ from vgi_rpc.rpc._common import (
     _record_input,
     _record_output,
 )
-from vgi_rpc.utils import ArrowSerializableDataclass, ValidatedReader, empty_batch, new_ipc_stream
+from vgi_rpc.utils import ArrowSerializableDataclass, IPCError, ValidatedReader, empty_batch, new_ipc_stream
 
 from .._common import _RpcHttpError
 from ._responses import _current_response_status, _enforce_response_budgets
@@ -244,7 +244,9 @@ def _run_stream_init_sync(
             # method raises past this point takes the ordinary error path.
             _validate_call_signature(info.name, kwargs, info.param_types, info.param_defaults, info.params_schema)
             _validate_params(info.name, kwargs, info.param_types)
-        except (pa.ArrowInvalid, TypeError, StopIteration, RpcError, VersionError) as exc:
+        except (pa.ArrowInvalid, IPCError, TypeError, StopIteration, RpcError, VersionError) as exc:
+            # IPCError: the request batch failed IPC validation (e.g. a string column that is
+            # not UTF-8) -- malformed input from the caller, not a server or method error.
             raise _RpcHttpError(exc, status_code=HTTPStatus.BAD_REQUEST) from exc
         except Exception as exc:
             # External pointer resolution can fail before stream state exists.
